@@ -420,7 +420,7 @@ def components_from_metric(metric, tol=None):
   if not np.issubdtype(metric.dtype, np.floating):
     # (the default tolerance below is relative to the floating-point type)
     metric = metric.astype(float)
-  if not np.allclose(metric, metric.T, atol=1e-8 * np.abs(metric).max()):
+  if not np.allclose(metric, metric.T):
     raise ValueError("The input metric should be symmetric.")
   # If M is diagonal, we will just return the elementwise square root:
   if np.array_equal(metric, np.diag(np.diag(metric))):
